@@ -162,6 +162,7 @@ type hist struct {
 	crcmix bool                // the checksum setting alternates from one binlog file to the next
 	pad    bool                // ROWS events carry their bitmaps with the padding bits set, as real masters write them
 	empty  bool                // the replica starts at ("", 4): "oldest binlog"; labels carry "" until the first ROTATE
+	qerr   bool                // QUERY events carry a non-zero error_code in their post-header (a statement that failed part-way on the master and was logged with the error it hit: DROP TABLE t1,t2 with t2 missing, a killed statement on a non-transactional table). Applied by the harness to the packets the Spec master serves (same length; the field is not part of what the replica delivers), so the model's outcome for the unpatched packets is the expectation.
 }
 
 // startFile is the file name the replica is configured with for this history.
@@ -729,6 +730,7 @@ func genHistory(r *RNG, o histOpts, cfg string) *hist {
 	}
 	h.empty = r.Chance(1, 6)
 	h.pad = r.Bool()
+	h.qerr = r.Chance(1, 4)
 	nu := r.Range(1, o.maxUnits)
 	ts := uint32(1600000000 + r.Intn(1000))
 	if r.Chance(1, 6) {
@@ -965,6 +967,7 @@ func showTx(t *gobinlog.Transaction) string {
 func runParse(h *hist, packets [][]byte, file string, off int64, failAt int, mapperMode string, cancelEnd bool, cancelOnFail ...bool) (res string, calls []string, mcalls []string) {
 	m := &tblMapper{tables: h.tables, mode: mapperMode}
 	s, _ := gobinlog.NewStreamer("unused", 7, m)
+	packets = withQueryErrors(h, packets)
 	return runParseOn(s, m, packets, file, off, failAt, cancelEnd, cancelOnFail...)
 }
 
@@ -1005,7 +1008,15 @@ func runParseOn(s *gobinlog.Streamer, m *tblMapper, packets [][]byte, file strin
 			// change it (the re-read at the end compares with the rendering taken above)
 			func() {
 				defer func() { recover() }()
-				json.Marshal(t)
+				out, err := json.Marshal(t)
+				if err != nil {
+					return
+				}
+				// "NULL, empty and absent differ" also in the library's own rendering of what it delivered: a present
+				// value - the empty string included - is a JSON string, NULL and absent are null
+				if bad := jsonNullness(t, out); bad != "" && len(calls) > 0 {
+					calls[len(calls)-1] += "!json-rendering:" + bad
+				}
 			}()
 			n++
 			if failAt >= 0 && n-1 == failAt {
@@ -1043,6 +1054,61 @@ func runParseOn(s *gobinlog.Streamer, m *tblMapper, packets [][]byte, file strin
 		}
 	}
 	return cls + "#" + strings.Join(calls, "&"), calls, m.calls
+}
+
+// withQueryErrors sets the error_code field of every QUERY event (post-header bytes 9..10) to a server error number.
+func withQueryErrors(h *hist, packets [][]byte) [][]byte {
+	if h == nil || !h.qerr {
+		return packets
+	}
+	codes := []uint16{1051, 1317, 1062, 1, 65535}
+	for i, p := range packets {
+		if len(p) >= 19+13 && p[4] == 2 {
+			c := codes[i%len(codes)]
+			p[19+9], p[19+10] = byte(c), byte(c>>8)
+		}
+	}
+	return packets
+}
+
+// jsonNullness compares, column by column, whether the marshalled "data" is null with whether the delivered value is
+// NULL / absent; "" when they agree.
+func jsonNullness(t *gobinlog.Transaction, out []byte) string {
+	var doc struct {
+		Events []struct {
+			RowValues, RowIdentifies []struct {
+				Columns []struct {
+					Data *string `json:"data"`
+				} `json:"columns"`
+			}
+		} `json:"events"`
+	}
+	if json.Unmarshal(out, &doc) != nil || len(doc.Events) != len(t.Events) {
+		return ""
+	}
+	for i, e := range t.Events {
+		for side, rows := range [][]*gobinlog.RowData{e.RowValues, e.RowIdentifies} {
+			jr := doc.Events[i].RowValues
+			if side == 1 {
+				jr = doc.Events[i].RowIdentifies
+			}
+			if len(jr) != len(rows) {
+				continue
+			}
+			for r, row := range rows {
+				if len(jr[r].Columns) != len(row.Columns) {
+					continue
+				}
+				for c, cd := range row.Columns {
+					isNull := jr[r].Columns[c].Data == nil
+					if isNull != (cd.Data == nil) {
+						return fmt.Sprintf("event %d row %d column %q: delivered value nil=%v, rendered as null=%v", i, r, cd.Filed, cd.Data == nil, isNull)
+					}
+				}
+			}
+		}
+	}
+	return ""
 }
 
 func splitPackets(s string) [][]byte {
